@@ -56,9 +56,11 @@ package state
 // are non-nil is part of C12's representation invariant and assumed here.)
 //@ pred nickOK(nk *nick) := nk != nil
 //@ func (*nick).Nick
-//@   property C14
+//@   property C14, C12
 //@   attr frame=checked
 //@   requires nickOK(nk)
+//@   requires [C12] HI() && isa(nk, "nick")
+//@   ensures [C12] snapN(result, nk)
 //@   modifies result.Nick, result.Ident, result.Host, result.Name, result.Modes, result.Channels, entries(result.Channels)
 //@   modifies NickMode.Bot, NickMode.Invisible, NickMode.Oper, NickMode.WallOps, NickMode.HiddenHost, NickMode.SSL
 //@   modifies ChanPrivs.Owner, ChanPrivs.Admin, ChanPrivs.Op, ChanPrivs.HalfOp, ChanPrivs.Voice
@@ -71,6 +73,9 @@ package state
 //@   ensures forall p *ChanPrivs :: !fresh(p) ==> p.Owner == old(p.Owner) && p.Admin == old(p.Admin) && p.Op == old(p.Op) && p.HalfOp == old(p.HalfOp) && p.Voice == old(p.Voice)
 //@   loop 0:
 //@     invariant n != nil && fresh(n) && n.Channels != nil && fresh(n.Channels) && nickOK(nk)
+//@     invariant [C12] forall k int :: has(dom(n.Channels), k) <==> has(dom(nk.lookup), k) && has(visited(), vals(nk.lookup)[k])
+//@     invariant [C12] forall k int :: has(dom(n.Channels), k) ==> privEq(vals(n.Channels)[k], nk.chans[vals(nk.lookup)[k]])
+//@     invariant [C12] nk.modes != nil && modeEqN(n.Modes, nk.modes)
 //@     invariant n.Nick == nk.nick && n.Ident == nk.ident && n.Host == nk.host && n.Name == nk.name
 //@     invariant (nk.modes == nil ==> n.Modes == nil) && (nk.modes != nil ==> fresh(n.Modes))
 //@     invariant forall k int :: has(dom(n.Channels), k) ==> vals(n.Channels)[k] == nil || fresh(vals(n.Channels)[k])
@@ -81,9 +86,11 @@ package state
 
 //@ pred chanOK(ch *channel) := ch != nil
 //@ func (*channel).Channel
-//@   property C14
+//@   property C14, C12
 //@   attr frame=checked
 //@   requires chanOK(ch)
+//@   requires [C12] HI() && isa(ch, "channel")
+//@   ensures [C12] snapC(result, ch)
 //@   modifies result.Name, result.Topic, result.Modes, result.Nicks, entries(result.Nicks)
 //@   modifies ChanMode.Private, ChanMode.Secret, ChanMode.ProtectedTopic, ChanMode.NoExternalMsg, ChanMode.Moderated, ChanMode.InviteOnly
 //@   modifies ChanMode.OperOnly, ChanMode.SSLOnly, ChanMode.Registered, ChanMode.AllSSL, ChanMode.Key, ChanMode.Limit
@@ -95,6 +102,9 @@ package state
 //@        && m.OperOnly == old(m.OperOnly) && m.SSLOnly == old(m.SSLOnly) && m.Registered == old(m.Registered) && m.AllSSL == old(m.AllSSL)
 //@   loop 0:
 //@     invariant c != nil && fresh(c) && c.Nicks != nil && fresh(c.Nicks) && chanOK(ch) && (c.Modes == nil || fresh(c.Modes))
+//@     invariant [C12] forall k int :: has(dom(c.Nicks), k) <==> has(dom(ch.lookup), k) && has(visited(), vals(ch.lookup)[k])
+//@     invariant [C12] forall k int :: has(dom(c.Nicks), k) ==> privEq(vals(c.Nicks)[k], ch.nicks[vals(ch.lookup)[k]])
+//@     invariant [C12] ch.modes != nil && modeEqC(c.Modes, ch.modes)
 //@     invariant c.Name == ch.name && c.Topic == ch.topic
 //@     invariant forall k int :: has(dom(c.Nicks), k) ==> vals(c.Nicks)[k] == nil || fresh(vals(c.Nicks)[k])
 //@     invariant forall m map[string]*ChanPrivs :: m != c.Nicks ==> dom(m) === preloop(dom(m)) && vals(m) === preloop(vals(m))
@@ -324,7 +334,7 @@ package state
 //@   requires [C12] RI(st)
 //@   ensures [C12] RI(st) && st.me == old(st.me) && st.nicks == old(st.nicks) && st.chans == old(st.chans)
 //@   ensures [C12] (n == "" || old(has(st.nicks, n))) ==> result == nil && trkUnchanged(st)
-//@   ensures [C12] !(n == "" || old(has(st.nicks, n))) ==> result != nil && result.Nick == n
+//@   ensures [C12] !(n == "" || old(has(st.nicks, n))) ==> result != nil && result.Nick == n && snapN(result, st.nicks[n])
 //@        && dom(st.nicks) === setadd(old(dom(st.nicks)), n) && fresh(st.nicks[n]) && st.nicks[n].nick == n
 //@        && dom(st.nicks[n].chans) === emptyset() && dom(st.nicks[n].lookup) === emptyset()
 //@        && (forall k int :: k != sid(n) ==> vals(st.nicks)[k] == old(vals(st.nicks)[k]))
@@ -340,7 +350,7 @@ package state
 //@   ensures result == nil || freshNick(result)
 //@   requires [C12] RI(st)
 //@   ensures [C12] RI(st) && st.me == old(st.me) && st.nicks == old(st.nicks) && st.chans == old(st.chans)
-//@   ensures [C12] has(st.nicks, n) ==> result != nil && result.Nick == n && result.Ident == st.nicks[n].ident && result.Host == st.nicks[n].host && result.Name == st.nicks[n].name
+//@   ensures [C12] has(st.nicks, n) ==> result != nil && result.Nick == n && snapN(result, st.nicks[n])
 //@   ensures [C12] !has(st.nicks, n) ==> result == nil
 //@   ensures [C12] trkUnchanged(st)
 //@ end
@@ -356,7 +366,7 @@ package state
 //@   ensures [C12] RI(st) && st.me == old(st.me) && st.nicks == old(st.nicks) && st.chans == old(st.chans)
 //@   ensures [C12] (!old(has(st.nicks, old)) || old(has(st.nicks, neu))) ==> result == nil && trkUnchanged(st)
 // a rename re-keys the index and carries the nick object (hence its memberships and privileges) along
-//@   ensures [C12] old(has(st.nicks, old)) && !old(has(st.nicks, neu)) ==> result != nil && result.Nick == neu && nk == old(st.nicks[old]) && nk.nick == neu
+//@   ensures [C12] old(has(st.nicks, old)) && !old(has(st.nicks, neu)) ==> result != nil && result.Nick == neu && nk == old(st.nicks[old]) && nk.nick == neu && snapN(result, nk)
 //@        && dom(st.nicks) === setadd(upd(old(dom(st.nicks)), old, false), neu) && st.nicks[neu] == nk
 //@        && (forall k int :: k != sid(neu) ==> vals(st.nicks)[k] == old(vals(st.nicks)[k]))
 //@        && (forall o *nick :: o != nk ==> o.nick == old(o.nick))
@@ -382,7 +392,7 @@ package state
 //@   ensures [C12] RI(st) && st.me == old(st.me) && st.nicks == old(st.nicks) && st.chans == old(st.chans)
 //@   ensures [C12] (!old(has(st.nicks, n)) || old(st.nicks[n]) == st.me) ==> result == nil && trkUnchanged(st)
 // deleting a nick removes all its memberships and nothing else
-//@   ensures [C12] old(has(st.nicks, n)) && old(st.nicks[n]) != st.me ==> result != nil && result.Nick == n
+//@   ensures [C12] old(has(st.nicks, n)) && old(st.nicks[n]) != st.me ==> result != nil && result.Nick == n && snapN(result, old(st.nicks[n]))
 //@        && dom(st.nicks) === upd(old(dom(st.nicks)), n, false) && vals(st.nicks) === old(vals(st.nicks))
 //@        && dom(st.chans) === old(dom(st.chans)) && vals(st.chans) === old(vals(st.chans))
 //@        && len(old(st.nicks[n]).chans) == 0
@@ -399,7 +409,7 @@ package state
 //@   requires [C12] RI(st)
 //@   ensures [C12] RI(st) && st.me == old(st.me) && st.nicks == old(st.nicks) && st.chans == old(st.chans)
 //@   ensures [C12] !has(st.nicks, n) ==> result == nil && trkUnchanged(st)
-//@   ensures [C12] has(st.nicks, n) ==> result != nil && result.Nick == n && result.Ident == ident && result.Host == host && result.Name == name
+//@   ensures [C12] has(st.nicks, n) ==> result != nil && result.Nick == n && result.Ident == ident && result.Host == host && result.Name == name && snapN(result, st.nicks[n])
 //@        && st.nicks[n].ident == ident && st.nicks[n].host == host && st.nicks[n].name == name
 //@        && (forall o *nick :: o != st.nicks[n] ==> o.ident == old(o.ident) && o.host == old(o.host) && o.name == old(o.name))
 //@        && (forall o *nick :: o.nick == old(o.nick) && o.chans == old(o.chans) && o.lookup == old(o.lookup))
@@ -416,7 +426,7 @@ package state
 //@   requires [C12] RI(st)
 //@   ensures [C12] RI(st) && st.me == old(st.me) && st.nicks == old(st.nicks) && st.chans == old(st.chans)
 //@   ensures [C12] !has(st.nicks, n) ==> result == nil
-//@   ensures [C12] has(st.nicks, n) ==> result != nil && result.Nick == n
+//@   ensures [C12] has(st.nicks, n) ==> result != nil && result.Nick == n && snapN(result, st.nicks[n])
 //@   ensures [C12] trkUnchanged(st)
 //@ end
 //@ func (*stateTracker).NewChannel
@@ -430,7 +440,7 @@ package state
 //@   requires [C12] RI(st)
 //@   ensures [C12] RI(st) && st.me == old(st.me) && st.nicks == old(st.nicks) && st.chans == old(st.chans)
 //@   ensures [C12] (c == "" || old(has(st.chans, c))) ==> result == nil && trkUnchanged(st)
-//@   ensures [C12] !(c == "" || old(has(st.chans, c))) ==> result != nil && result.Name == c
+//@   ensures [C12] !(c == "" || old(has(st.chans, c))) ==> result != nil && result.Name == c && snapC(result, st.chans[c])
 //@        && dom(st.chans) === setadd(old(dom(st.chans)), c) && fresh(st.chans[c]) && st.chans[c].name == c
 //@        && dom(st.chans[c].nicks) === emptyset() && dom(st.chans[c].lookup) === emptyset()
 //@        && (forall k int :: k != sid(c) ==> vals(st.chans)[k] == old(vals(st.chans)[k]))
@@ -446,7 +456,7 @@ package state
 //@   ensures result == nil || freshChannel(result)
 //@   requires [C12] RI(st)
 //@   ensures [C12] RI(st) && st.me == old(st.me) && st.nicks == old(st.nicks) && st.chans == old(st.chans)
-//@   ensures [C12] has(st.chans, c) ==> result != nil && result.Name == c && result.Topic == st.chans[c].topic
+//@   ensures [C12] has(st.chans, c) ==> result != nil && result.Name == c && snapC(result, st.chans[c])
 //@   ensures [C12] !has(st.chans, c) ==> result == nil
 //@   ensures [C12] trkUnchanged(st)
 //@ end
@@ -462,7 +472,7 @@ package state
 //@   ensures [C12] RI(st) && st.me == old(st.me) && st.nicks == old(st.nicks) && st.chans == old(st.chans)
 //@   ensures [C12] !old(has(st.chans, c)) ==> result == nil && trkUnchanged(st)
 // deleting a channel forgets it and every other nick that is left sharing no channel
-//@   ensures [C12] old(has(st.chans, c)) ==> result != nil && result.Name == c && gcChannel(st, old(st.chans[c]))
+//@   ensures [C12] old(has(st.chans, c)) ==> result != nil && result.Name == c && snapC(result, old(st.chans[c])) && gcChannel(st, old(st.chans[c]))
 //@        && dom(st.chans) === upd(old(dom(st.chans)), c, false)
 //@ end
 //@ func (*stateTracker).Topic
@@ -476,7 +486,7 @@ package state
 //@   requires [C12] RI(st)
 //@   ensures [C12] RI(st) && st.me == old(st.me) && st.nicks == old(st.nicks) && st.chans == old(st.chans)
 //@   ensures [C12] !has(st.chans, c) ==> result == nil && trkUnchanged(st)
-//@   ensures [C12] has(st.chans, c) ==> result != nil && result.Name == c && result.Topic == topic && st.chans[c].topic == topic
+//@   ensures [C12] has(st.chans, c) ==> result != nil && result.Name == c && result.Topic == topic && st.chans[c].topic == topic && snapC(result, st.chans[c])
 //@        && (forall o *channel :: o != st.chans[c] ==> o.topic == old(o.topic))
 //@        && (forall o *channel :: o.name == old(o.name) && o.nicks == old(o.nicks) && o.lookup == old(o.lookup))
 //@        && (forall o *nick :: o.nick == old(o.nick) && o.ident == old(o.ident) && o.host == old(o.host) && o.name == old(o.name) && o.chans == old(o.chans) && o.lookup == old(o.lookup))
@@ -493,7 +503,7 @@ package state
 //@   requires [C12] RI(st)
 //@   ensures [C12] RI(st) && st.me == old(st.me) && st.nicks == old(st.nicks) && st.chans == old(st.chans)
 //@   ensures [C12] !has(st.chans, c) ==> result == nil
-//@   ensures [C12] has(st.chans, c) ==> result != nil && result.Name == c
+//@   ensures [C12] has(st.chans, c) ==> result != nil && result.Name == c && snapC(result, st.chans[c])
 //@   ensures [C12] trkUnchanged(st)
 //@ end
 //@ func (*stateTracker).Me
@@ -506,7 +516,7 @@ package state
 //@   ensures result == nil || freshNick(result)
 //@   requires [C12] RI(st)
 //@   ensures [C12] RI(st) && st.me == old(st.me) && st.nicks == old(st.nicks) && st.chans == old(st.chans)
-//@   ensures [C12] result != nil && result.Nick == st.me.nick && result.Ident == st.me.ident && result.Host == st.me.host && result.Name == st.me.name && trkUnchanged(st)
+//@   ensures [C12] result != nil && snapN(result, st.me) && trkUnchanged(st)
 //@ end
 //@ func (*stateTracker).IsOn
 //@   property C14, C12
@@ -572,9 +582,9 @@ package state
 // Heap-wide type invariant: every nick / channel object ever allocated has its
 // maps and mode struct, and the membership maps hold non-nil keys and values.
 //@ pred TI() := (forall n *nick :: isa(n, "nick") ==> n.chans != nil && n.lookup != nil && n.modes != nil && allocated(n.chans) && allocated(n.lookup)
-//@        && (forall c *channel :: has(n.chans, c) ==> c != nil && n.chans[c] != nil))
+//@        && (forall c *channel :: has(n.chans, c) ==> c != nil && n.chans[c] != nil && allocated(n.chans[c])))
 //@     && (forall c *channel :: isa(c, "channel") ==> c.nicks != nil && c.lookup != nil && c.modes != nil && allocated(c.nicks) && allocated(c.lookup)
-//@        && (forall n *nick :: has(c.nicks, n) ==> n != nil && c.nicks[n] != nil))
+//@        && (forall n *nick :: has(c.nicks, n) ==> n != nil && c.nicks[n] != nil && allocated(c.nicks[n])))
 
 // Ownership: no two nick / channel objects share a map.
 //@ pred OWN() := (forall a *nick, b *nick :: isa(a, "nick") && isa(b, "nick") && a != b ==> a.chans != b.chans && a.lookup != b.lookup)
@@ -620,6 +630,15 @@ package state
 //@ pred objsUnchanged(st *stateTracker) := (forall n *nick :: !fresh(n) ==> n.nick == old(n.nick) && n.ident == old(n.ident) && n.host == old(n.host) && n.name == old(n.name)
 //@            && n.chans == old(n.chans) && n.lookup == old(n.lookup) && n.modes == old(n.modes))
 //@     && (forall c *channel :: !fresh(c) ==> c.name == old(c.name) && c.topic == old(c.topic) && c.nicks == old(c.nicks) && c.lookup == old(c.lookup) && c.modes == old(c.modes))
+// snapshots: attributes, and one privilege copy per membership, keyed by name
+//@ pred modeEqN(a *NickMode, b *NickMode) := a != nil && b != nil && a.Bot == b.Bot && a.Invisible == b.Invisible && a.Oper == b.Oper && a.WallOps == b.WallOps && a.HiddenHost == b.HiddenHost && a.SSL == b.SSL
+//@ pred modeEqC(a *ChanMode, b *ChanMode) := a != nil && b != nil && a.Key == b.Key && a.Limit == b.Limit && a.Private == b.Private && a.Secret == b.Secret
+//@     && a.ProtectedTopic == b.ProtectedTopic && a.NoExternalMsg == b.NoExternalMsg && a.Moderated == b.Moderated && a.InviteOnly == b.InviteOnly
+//@     && a.OperOnly == b.OperOnly && a.SSLOnly == b.SSLOnly && a.Registered == b.Registered && a.AllSSL == b.AllSSL
+//@ pred snapN(r *Nick, nk *nick) := r != nil && r.Nick == nk.nick && r.Ident == nk.ident && r.Host == nk.host && r.Name == nk.name && modeEqN(r.Modes, nk.modes)
+//@     && dom(r.Channels) === dom(nk.lookup) && (forall k int :: has(dom(nk.lookup), k) ==> privEq(vals(r.Channels)[k], nk.chans[vals(nk.lookup)[k]]))
+//@ pred snapC(r *Channel, ch *channel) := r != nil && r.Name == ch.name && r.Topic == ch.topic && modeEqC(r.Modes, ch.modes)
+//@     && dom(r.Nicks) === dom(ch.lookup) && (forall k int :: has(dom(ch.lookup), k) ==> privEq(vals(r.Nicks)[k], ch.nicks[vals(ch.lookup)[k]]))
 //@ pred privEq(a *ChanPrivs, b *ChanPrivs) := a != nil && b != nil && a.Owner == b.Owner && a.Admin == b.Admin && a.Op == b.Op && a.HalfOp == b.HalfOp && a.Voice == b.Voice
 // what deleting channel x does: x loses all members; exactly the other nicks
 // left sharing no channel are forgotten; every other membership stays
